@@ -7,11 +7,44 @@ import numpy as np
 from .. import gen, impl, oracle, ser, stream
 
 ID = "C08"
-LEVEL = "translation_validation"
-PROPS_MODULE = None
-THEOREMS = []
-LEAN_FILES = []
-PLANNED = ["op_toDense_commutes family"]
+LEVEL = "proof"
+PROPS_MODULE = "SymmModel.Props.C08"
+THEOREMS = [
+    "SymmModel.C08.locateAll_total",
+    "SymmModel.C08.toDenseA_get",
+    "SymmModel.C08.toDenseA_error_iff",
+    "SymmModel.C08.toDenseA_error_kind",
+    "SymmModel.C08.locateAll_inBox",
+    "SymmModel.C08.neg_elem",
+    "SymmModel.C08.smul_elem",
+    "SymmModel.C08.sdiv_elem",
+    "SymmModel.C08.conjA_elem",
+    "SymmModel.C08.addA_ok",
+    "SymmModel.C08.mulA_ok",
+    "SymmModel.C08.add_outer_elem",
+    "SymmModel.C08.mul_inner_elem",
+    "SymmModel.C08.mul_inner_sectors",
+    "SymmModel.C08.add_outer_sectors",
+    "SymmModel.C08.sub_error_iff",
+    "SymmModel.C08.sub_strict_elem",
+    "SymmModel.C08.mul_comm_obs",
+    "SymmModel.C08.multiplyDiagonal_elem",
+    "SymmModel.C08.neg_toDense",
+    "SymmModel.C08.smul_toDense",
+    "SymmModel.C08.sdiv_toDense",
+    "SymmModel.C08.conj_toDense",
+    "SymmModel.C08.conj_indices",
+    "SymmModel.C08.add_toDense",
+    "SymmModel.C08.mul_toDense",
+    "SymmModel.C08.sub_toDense",
+    "SymmModel.C08.multiplyDiagonal_toDense",
+    "SymmModel.C08.transposeA_elem",
+    "SymmModel.C08.transposeA_toDense",
+    "SymmModel.C08.hypotheses_of_validB",
+    "SymmModel.C08.GRat_laws"
+]
+LEAN_FILES = ["SymmModel.Props.C08", "SymmModel.Proofs.DenseLemmas"]
+PLANNED = ["squeeze_toDense", "expandDims_toDense", "dagger_toDense (= conj o transpose, both proved, composition not stated)", "sum_toDense", "norm_toDense", "BlockVector arithmetic / elementwise functions"]
 RULE = ("every listed operation on random abelian arrays (all symmetries, static/generic, sparse, real/complex) "
         "through method / symmray function / autoray dispatch; binary operations on operands with different stored "
         "sectors; diagonal vectors missing charges; BlockVector arithmetic and every exported elementwise function. "
